@@ -45,8 +45,50 @@ FINITE_ELEMS = [1, 2, 3, 'a', 'bc', 2.5, -1, 0, (1, 2), None, True]
 # --------------------------------------------------------------------------
 # builders
 
+VIEW_KINDS = ('same', 'strided', 'offset', 'reversed', 'forder',
+              'transposed')
+WRAP_KINDS = ('tensor',)
+
+
+def view_kinds(shape, matrix=False):
+    """Aliasing kinds that give a *distinct array object of the same shape
+    and dtype* on the memory block of the array with the same id:
+
+    same        ``a[...]``: same memory, same layout, same values
+    strided     same start address, other strides (``buf[:n]`` against
+                ``buf[::2]``), other values
+    offset      overlapping memory, start address one item later
+    reversed    same memory walked backwards (other start, negative stride)
+    forder      same start address and memory, Fortran instead of C strides
+                (ndim >= 2; other values)
+    transposed  ``a.T`` (shapes that read the same backwards, ndim >= 2)
+    """
+    shape = tuple(shape)
+    n = int(np.prod(shape, dtype=int))
+    if n == 0:
+        return []
+    if matrix:
+        # a weighting matrix has to stay Hermitian: only the views of a
+        # (diagonal) matrix that keep its values
+        return ['same', 'transposed']
+    kinds = ['same', 'strided', 'offset', 'reversed']
+    if len(shape) >= 2:
+        kinds.append('forder')
+        if shape == shape[::-1]:
+            kinds.append('transposed')
+    return kinds
+
+
 class Arrays(object):
-    """Per-case table of weighting arrays (identity semantics)."""
+    """Per-case table of weighting arrays (identity semantics).
+
+    Every array with an ``id`` is the head ``buf[:n]`` of a buffer of
+    ``2 n + 1`` items kept per (id, dtype, data, shape); the items behind
+    the head hold values that do not occur in any descriptor (4.0, 4.25,
+    ...).  ``"view": kind`` in the array reference asks for a *new* ndarray
+    object aliasing that buffer (see `view_kinds`), ``"wrap": "tensor"``
+    for an ODL tensor that wraps the very array object (documented: native
+    tensors are stored without copying)."""
 
     def __init__(self):
         self.tab = {}
@@ -54,16 +96,51 @@ class Arrays(object):
     def get(self, wd, shape, dtype):
         if wd.get('as64'):
             dtype = 'float64'      # weights as given, whatever the space
+        shape = tuple(int(s) for s in shape)
         key = (wd.get('id', None), str(np.dtype(dtype)),
-               repr(wd['data']), tuple(shape))
+               repr(wd['data']), shape)
         if wd.get('id') is None:
             # anonymous: a fresh array every time
             return np.asarray(wd['data'], dtype=float).reshape(
                 shape).astype(dtype)
+        n = int(np.prod(shape, dtype=int))
         if key not in self.tab:
-            self.tab[key] = np.asarray(wd['data'], dtype=float).reshape(
-                shape).astype(dtype)
-        return self.tab[key]
+            buf = np.empty(2 * n + 1, dtype=dtype)
+            buf[:n] = np.asarray(wd['data'], dtype=float).reshape(-1)
+            buf[n:] = 4.0 + 0.25 * np.arange(n + 1)
+            self.tab[key] = (buf, buf[:n].reshape(shape))
+        buf, base = self.tab[key]
+        view = wd.get('view')
+        if view is None:
+            arr = base
+        elif view == 'same':
+            arr = base[...]
+        elif view == 'strided':
+            arr = buf[0:2 * n:2].reshape(shape)
+        elif view == 'offset':
+            arr = buf[1:n + 1].reshape(shape)
+        elif view == 'reversed':
+            arr = buf[:n][::-1].reshape(shape)
+        elif view == 'forder':
+            arr = buf[:n].reshape(shape, order='F')
+        elif view == 'transposed':
+            arr = base.T
+        else:
+            raise HarnessError('array view {!r}'.format(view))
+        if view is not None and (
+                arr is base or arr.shape != shape or arr.dtype != base.dtype
+                or (n and not np.shares_memory(arr, buf))):
+            raise HarnessError('view {!r} of shape {} is not a distinct '
+                               'alias'.format(view, shape))
+        wrap = wd.get('wrap')
+        if wrap is None:
+            return arr
+        if wrap == 'tensor':
+            x = odl.tensor_space(shape, dtype=arr.dtype).element(arr)
+            if x.data is not arr:
+                raise HarnessError('tensor wrapper copied the array')
+            return x
+        raise HarnessError('array wrap {!r}'.format(wrap))
 
 
 def _tensor_kwargs(sd, shape, arrays):
@@ -77,7 +154,7 @@ def _tensor_kwargs(sd, shape, arrays):
                 w, shape, spacex._real_dtype(sd.get('dtype', 'float64')))
         elif w['type'] == 'custom':
             which = w['which']
-            kwargs['inner' if which == 'inner_b' else which] = \
+            kwargs[which.split('_')[0]] = \
                 spacex.custom_func('tensor', which)
         else:
             raise HarnessError('weighting {!r}'.format(w))
@@ -87,6 +164,31 @@ def _tensor_kwargs(sd, shape, arrays):
             np.dtype(sd.get('dtype', 'float64')).kind in 'fc' and \
             sd['kind'] == 'tensor':
         kwargs['weighting'] = 1.0
+    if sd.get('w_instance'):
+        # call style: the same weighting handed over as a `Weighting`
+        # instance (documented: used as-is)
+        p = float(sd.get('exponent', 2.0))
+        if w is None:
+            kwargs['weighting'] = \
+                npy_tensors.NumpyTensorSpaceConstWeighting(1.0, p)
+        elif w['type'] == 'const':
+            kwargs['weighting'] = \
+                npy_tensors.NumpyTensorSpaceConstWeighting(
+                    kwargs['weighting'], p)
+        elif w['type'] == 'array':
+            kwargs['weighting'] = \
+                npy_tensors.NumpyTensorSpaceArrayWeighting(
+                    kwargs['weighting'], p)
+        else:
+            key = [k for k in ('inner', 'norm', 'dist') if k in kwargs][0]
+            cls = {'inner': npy_tensors.NumpyTensorSpaceCustomInner,
+                   'norm': npy_tensors.NumpyTensorSpaceCustomNorm,
+                   'dist': npy_tensors.NumpyTensorSpaceCustomDist}[key]
+            kwargs['weighting'] = cls(kwargs.pop(key))
+            kwargs.pop('exponent', None)
+        if sd['kind'] != 'tensor' and 'exponent' not in kwargs and \
+                not (w and w['type'] == 'custom'):
+            kwargs['exponent'] = p      # (uniform_discr defaults to 2.0)
     return kwargs
 
 
@@ -94,6 +196,12 @@ def build_space(sd, arrays):
     kind = sd['kind']
     if kind == 'tensor':
         shape = tuple(sd['shape'])
+        if sd.get('ctor') == 'rn-cn':
+            # call style: the documented short-hands of tensor_space
+            make = odl.cn if np.dtype(sd['dtype']).kind == 'c' else odl.rn
+            return make(shape[0] if len(shape) == 1 and sd.get('int_shape')
+                        else shape, dtype=sd['dtype'],
+                        **_tensor_kwargs(sd, shape, arrays))
         return odl.tensor_space(shape, dtype=sd.get('dtype', 'float64'),
                                 **_tensor_kwargs(sd, shape, arrays))
     if kind == 'discr':
@@ -127,6 +235,22 @@ def build_space(sd, arrays):
                 kwargs[w['which']] = spacex.custom_func('pspace', w['which'])
         if sd.get('exponent', 2.0) != 2.0:
             kwargs['exponent'] = float(sd['exponent'])
+        if sd.get('w_instance'):
+            p = float(sd.get('exponent', 2.0))
+            if w is None:
+                kwargs['weighting'] = opspace.ProductSpaceConstWeighting(
+                    1.0, p)
+            elif w['type'] == 'const':
+                kwargs['weighting'] = opspace.ProductSpaceConstWeighting(
+                    kwargs['weighting'], p)
+            elif w['type'] == 'array':
+                kwargs['weighting'] = opspace.ProductSpaceArrayWeighting(
+                    kwargs['weighting'], p)
+            else:
+                cls = {'inner': opspace.ProductSpaceCustomInner,
+                       'norm': opspace.ProductSpaceCustomNorm,
+                       'dist': opspace.ProductSpaceCustomDist}[w['which']]
+                kwargs['weighting'] = cls(kwargs.pop(w['which']))
         if sd.get('power') is not None:
             return odl.ProductSpace(build_space(sd['base'], arrays),
                                     int(sd['power']), **kwargs)
@@ -210,6 +334,7 @@ def build_weighting(d, arrays):
     if typ == 'matrix':
         n = len(d['arr']['data'])
         arr = arrays.get({'id': d['arr'].get('id'),
+                          'view': d['arr'].get('view'),
                           'data': np.diag(d['arr']['data']).tolist()},
                          (n, n), 'float64')
         return oweighting.MatrixWeighting(arr, impl='numpy', exponent=p)
@@ -217,7 +342,7 @@ def build_weighting(d, arrays):
         which = d['which']
         fn = spacex.custom_func('tensor' if lvl != 'pspace' else 'pspace',
                                 which)
-        base = which.replace('_b', '')
+        base = which.split('_')[0]
         cls = {('tensor', 'inner'): npy_tensors.NumpyTensorSpaceCustomInner,
                ('tensor', 'norm'): npy_tensors.NumpyTensorSpaceCustomNorm,
                ('tensor', 'dist'): npy_tensors.NumpyTensorSpaceCustomDist,
@@ -351,7 +476,9 @@ def weightings(draw):
         if typ == 'matrix':
             d['level'] = 'base'
     else:
-        d['which'] = draw(st.sampled_from(['inner', 'norm', 'dist']))
+        d['which'] = draw(st.sampled_from(
+            ['inner', 'norm', 'dist'] + (['inner_c'] if level != 'pspace'
+                                         else [])))
         d['exponent'] = 2.0
     return d
 
@@ -381,7 +508,7 @@ def leaf_weighting(draw, shape, dtype, custom=True):
         return {'type': 'const', 'value': draw(st.sampled_from(WCONST))}
     if wk == 'custom':
         return {'type': 'custom', 'which': draw(st.sampled_from(
-            ['inner', 'norm', 'dist']))}
+            ['inner', 'norm', 'dist', 'inner_c']))}
     n = int(np.prod(shape, dtype=int))
     data = draw(st.lists(st.sampled_from([1.0, 2.0, 3.0, 0.5]), min_size=n,
                          max_size=n))
@@ -704,10 +831,14 @@ def mutations(d):
                          'arr': {'id': 7, 'data': [d['value']] * 3}},
                 'unequal')
         if d['type'] == 'custom':
-            nxt = {'inner': 'norm', 'norm': 'dist', 'dist': 'inner'}
+            nxt = {'inner': 'norm', 'norm': 'dist', 'dist': 'inner',
+                   'inner_c': 'norm'}
             add('custom-kind', dict(d, which=nxt[d['which']]), 'unequal')
             if d['which'] == 'inner' and d['level'] != 'pspace':
                 add('function', dict(d, which='inner_b'), 'unequal')
+            if d['which'] == 'inner_c':
+                # another function object with the same code and name
+                add('closure', dict(d, which='inner_d'), 'unequal')
             lv = 'pspace' if d['level'] != 'pspace' else 'tensor'
             add('class', dict(d, level=lv), 'unequal')
         else:
@@ -717,6 +848,80 @@ def mutations(d):
     elif k == 'Space':
         for name, sd, expect in space_mutations(d['sd']):
             add(name, {'k': 'Space', 'sd': sd}, expect)
+    return out
+
+
+def _array_weightings(sd, path=()):
+    """(path, weighting dict, array shape) of every array weighting that
+    has an id in a space descriptor, the space's own one first."""
+    out = []
+    w = sd.get('weighting')
+    if sd['kind'] == 'pspace':
+        parts = build.space_parts(sd)
+        if w is not None and w['type'] == 'array' and \
+                w.get('id') is not None:
+            out.append((path + ('weighting',), w, (len(parts),)))
+        if sd.get('power') is not None:
+            if sd['power']:
+                out += _array_weightings(sd['base'], path + ('base',))
+        else:
+            for i, p in enumerate(sd['parts']):
+                out += _array_weightings(p, path + ('parts', i))
+    elif w is not None and w['type'] == 'array' and w.get('id') is not None:
+        out.append((path + ('weighting',), w, tuple(sd['shape'])))
+    return out
+
+
+def alias_mutations(d):
+    """Near-twins that differ from ``d`` only in *which ndarray object*
+    carries the weights, all objects living on one memory block:
+    (name, descriptor, expectation) like `mutations`.
+
+    ``array-view:<kind>`` puts a distinct array object of the same shape
+    and dtype on the memory of the original array (`view_kinds`).  Array
+    and matrix weightings are documented to compare by the identity of the
+    array, hence 'unequal' -- and for all kinds but ``same`` /
+    ``transposed`` the values differ as well.  ``array-wrap:tensor`` hands
+    over an ODL tensor that wraps the very same array object (documented:
+    stored without copying), hence 'equal' wherever the space / weighting
+    class unwraps the tensor; 'any' (no expectation) where the tensor
+    object itself is kept."""
+    out = []
+    if d['k'] == 'W' and d['type'] in ('array', 'matrix') and \
+            d['arr'].get('id') is not None:
+        n = len(d['arr']['data'])
+        matrix = d['type'] == 'matrix'
+        for kind in view_kinds((n, n) if matrix else (n,), matrix=matrix):
+            m = _copy(d)
+            m['arr']['view'] = kind
+            out.append(('array-view:' + kind, m, 'unequal'))
+        if not matrix and n:
+            # NumpyTensorSpaceArrayWeighting unwraps the tensor, the other
+            # two classes keep the tensor object itself as ``array``
+            m = _copy(d)
+            m['arr']['wrap'] = 'tensor'
+            # (... so that identity is that of the tensor object: no
+            # expectation, the laws and hashability only)
+            if d['level'] == 'tensor':
+                out.append(('array-wrap:tensor', m, 'equal'))
+            else:
+                out.append(('array-wrap:tensor-asis', m, 'any'))
+    elif d['k'] == 'Space':
+        found = _array_weightings(d['sd'])
+        for path, w, shape in found[:1]:
+            def mutated(**kw):
+                m = _copy(d)
+                node = m['sd']
+                for key in path:
+                    node = node[key]
+                node.update(kw)
+                return m
+            for kind in view_kinds(shape):
+                out.append(('array-view:' + kind, mutated(view=kind),
+                            'unequal'))
+            if int(np.prod(shape, dtype=int)):
+                out.append(('array-wrap:tensor', mutated(wrap='tensor'),
+                            'equal'))
     return out
 
 
@@ -765,7 +970,8 @@ def space_mutations(sd):
                 m['weighting']['id'] = 98
                 add('array-copy', m, 'unequal')   # documented: by identity
             if w is not None and w['type'] == 'custom':
-                nxt = {'inner': 'norm', 'norm': 'dist', 'dist': 'inner'}
+                nxt = {'inner': 'norm', 'norm': 'dist', 'dist': 'inner',
+                       'inner_c': 'norm'}
                 m = _copy(sd)
                 m['weighting']['which'] = nxt[w['which']]
                 add('custom-kind', m, 'unequal')
@@ -773,6 +979,16 @@ def space_mutations(sd):
                     m = _copy(sd)
                     m['weighting']['which'] = 'inner_b'
                     add('function', m, 'unequal')
+                if w['which'] == 'inner_c':
+                    m = _copy(sd)
+                    m['weighting']['which'] = 'inner_d'
+                    add('closure', m, 'unequal')
+        if dt.kind in 'fc' and not (kind == 'discr' and w is None):
+            add('weighting-instance', dict(sd, w_instance=True), 'equal')
+        if kind == 'tensor' and dt.kind in 'fc':
+            add('constructor', dict(sd, ctor='rn-cn',
+                                    int_shape=len(sd['shape']) == 1),
+                'equal')
         if kind == 'tensor':
             m = _copy(sd)
             m['shape'] = m['shape'] + [1]
@@ -842,6 +1058,7 @@ def space_mutations(sd):
             m = _copy(sd)
             m['exponent'] = 1.0 if sd.get('exponent', 2.0) != 1.0 else 3.0
             add('exponent', m, 'unequal')
+        add('weighting-instance', dict(sd, w_instance=True), 'equal')
         if n >= 1:
             # mutate the last component
             if sd.get('power') is not None and n > 1:
